@@ -565,3 +565,29 @@ func LoadContracts(path string) (*Contracts, error) {
 	}
 	return cs, nil
 }
+
+
+// headerNames: the receiver name and the parameter names a contract header uses ("func (e *T) f(a, b)").
+func (fc *FuncContract) headerNames() (recv string, params []string) {
+	h := fc.Header
+	if i := strings.Index(h, "func"); i >= 0 {
+		h = strings.TrimSpace(h[i+4:])
+	}
+	if strings.HasPrefix(h, "(") {
+		if j := strings.Index(h, ")"); j > 0 {
+			fs := strings.Fields(strings.Trim(h[1:j], " "))
+			if len(fs) == 2 {
+				recv = fs[0]
+			}
+			h = h[j+1:]
+		}
+	}
+	if a, b := strings.Index(h, "("), strings.LastIndex(h, ")"); a >= 0 && b > a {
+		for _, q := range strings.Split(h[a+1:b], ",") {
+			if q = strings.TrimSpace(q); q != "" {
+				params = append(params, strings.Fields(q)[0])
+			}
+		}
+	}
+	return
+}
